@@ -34,7 +34,10 @@ reg("C16", ["c16_crc.c"],
     rule="units: 'step' = all 2^24 (state, octet) pairs vs the bitwise CRC-16/ARC definition; 'two' = all 65536 "
          "two-octet buffers from a state (all 65536 states in thorough, 64 seeded states in quick); 'buf' = seeded "
          "random buffers <= 4 KiB compared whole and split at every position, plus 16-bit-word buffers at every "
-         "length 0..64. A signature is (generator, state) or (generator, length, init, fill mode); every signature "
+         "length 0..64 (random, all-zero, all-ones, mostly-zero, zero words in front / behind; split at every word); "
+         "'wstep' = the word variant's update step: all 65536 words from a state, alone and next to a zero word (32 "
+         "states incl. 0, 1, ffff in quick, every fourth state in thorough); 'long' = buffers up to 200003 octets. "
+         "A signature is (generator, state) or (generator, length, init, fill mode); every signature "
          "is non-trivial (each compares ufw output with the reference).",
     exhaustive={"quick": "all 2^24 (state, octet) update steps",
                 "thorough": "all 2^24 update steps and all 2^32 (state, two-octet buffer) pairs"})
